@@ -43,7 +43,7 @@ Verdict(r) ==
            a == r.answer
            f == Failed(o, r.cfg.mode, a) \cup (IF r.roundtrip_ok THEN {} ELSE {"RoundTrip"})
        IN [i |-> r.i, accepted |-> TRUE, failed |-> f, ctx |-> Context(o, r.cfg.caps),
-           ext |-> (IF FmtSubset(o, a) THEN {} ELSE {"FmtSubset"}),
+           ext |-> ExtFailed(o, a),
            kinds |-> UNION { { <<rule, o.secs[i].kind>> : i \in BadSecs(rule, o, r.cfg.mode, a) } :
                                rule \in f \cap SectionRules }]
 
